@@ -4,4 +4,6 @@ go 1.23.4
 
 require github.com/moorara/algo v0.0.0
 
+require golang.org/x/exp v0.0.0-20250305212735-054e65f0b394 // indirect
+
 replace github.com/moorara/algo => /repo
